@@ -1661,6 +1661,19 @@ func lazyInitValue(p *ssa.Phi) ssa.Value {
 			}
 			one = v
 			return true
+		case *ssa.UnOp:
+			// a field of the call's result (`k = loaded.Field` in a helper expanded into the loop): still one value
+			if x.Op != token.MUL {
+				return false
+			}
+			if _, isField := x.X.(*ssa.FieldAddr); !isField {
+				return false
+			}
+			if one != nil && one != v {
+				return false
+			}
+			one = v
+			return true
 		}
 		return false
 	}
